@@ -101,21 +101,48 @@ def interval(e, env, lens):
     return (0, INF)
 
 
+def _const_value(name):
+    """value of a crate constant (through the running check's fact context)"""
+    from .. import symeval
+    from ..symeval import Hooks
+    r = Hooks().resolve_const(name)
+    return r if isinstance(r, int) else None
+
+
 def safe_ops(f, kind):
     """True if every arithmetic expression of the asserted kind in f is provably in range (u32 arithmetic, shifts < 32)"""
-    opmap = {"Overflow(Mul)": "*", "Overflow(Shl)": "<<", "Overflow(Shr)": ">>", "Overflow(Add)": "+"}
+    opmap = {"Overflow(Mul)": "*", "Overflow(Shl)": "<<", "Overflow(Shr)": ">>", "Overflow(Add)": "+", "DivisionByZero": "/", "RemainderByZero": "%"}
     op = opmap.get(kind)
     if op is None:
         return False
     env, lens = intervals(f)
+    wide = set()          # names declared with a 64-bit type: shifts of them by up to 63 are in range
+    for q in f["sig"]["params"]:
+        if len(q) > 1 and str(q[1]).replace(" ", "").lstrip("&") in ("u64", "i64", "usize", "isize"):
+            wide.add(q[0])
+    for n in walk(f["body"]):
+        if n[0] == "block":
+            for s_ in n[1]:
+                if s_[0] == "local" and s_[1][0] == "p_ident" and isinstance(s_[2], str) and s_[2].replace(" ", "") in ("u64", "i64", "usize", "isize"):
+                    wide.add(s_[1][1])
     found = False
     for n in walk(f["body"]):
         if (n[0] == "binary" and n[1] == op) or (n[0] == "assignop" and n[1] == op):
             found = True
             l, r = (n[2], n[3])
             a, b = interval(l, env, lens), interval(r, env, lens)
-            if op in ("<<", ">>"):
-                if b[1] >= 32:
+            if op in ("/", "%"):
+                v_ = int_of(unblock(r)) if unblock(r)[0] in ("lit", "cast") else None
+                if v_ is None and path_of(unblock(r)) is not None:
+                    cv_ = _const_value(path_of(unblock(r)))
+                    v_ = cv_ if isinstance(cv_, int) else None
+                if not v_:
+                    return False
+            elif op in ("<<", ">>"):
+                lw = unblock(l)
+                is_wide = (path_of(lw) in wide) or (lw[0] == "cast" and lw[2].replace(" ", "") in ("u64", "i64", "usize")) or \
+                    (lw[0] == "call" and (path_of(lw[1]) or "").endswith(("u64::from", "usize::from")))
+                if b[1] >= (64 if is_wide else 32):
                     return False
             elif op == "*":
                 if a[1] * b[1] >= 2 ** 32:
